@@ -57,7 +57,10 @@ class MultiScaleCoronagraph(OpticalElement):
         self.props = []
 
         for i in range(1, levels):
-            num_airys.append(num_airys[i - 1] * window_size / (2 * qs[i - 1] * num_airys[i - 1]))
+            # Each level spans the window of the previous one, i.e. window_size * scaling_factor pixels.
+            # Half a pixel of margin keeps the truncation in make_focal_grid() from landing one pixel short.
+            num_pix = np.floor(window_size * scaling_factor + 1e-9)
+            num_airys.append((num_pix + 0.5) / (2 * qs[i]) * np.ones(2))
 
         for i in range(levels):
             q = qs[i]
